@@ -444,6 +444,13 @@ def specTextP (T : Tables) (fd : FontDict) (code : Int) : Text :=
 def specWidthP (T : Tables) (fd : FontDict) (code : Int) : Rat :=
   specWidthOf T fd code (specUnicodeP T fd code)
 
+/-! ### Type3 FontMatrix -/
+
+/-- A usable FontMatrix: an array of exactly six numbers (ISO 32000-1 Table 112). -/
+def matUsable : MatSpec → Bool
+  | .list xs => xs.length == 6 && xs.all Option.isSome
+  | _ => false
+
 /-! ### Font dictionaries with the raw FontFile stream -/
 
 /-- The property on a font dictionary whose embedded Type 1 program is given as bytes: `none` when reading
